@@ -366,6 +366,12 @@ struct Tmpl {
 		for (bool b : each) if (!b) return false;
 		return true;
 	}
+	template <class C, size_t... Is> static bool ctlIdsOk(const C& c, std::index_sequence<Is...>) {   // control.stateId<T>()
+		(void) c;
+		const bool each[] = {(c.template stateId<S<int(Is)>>() == ffsm2::StateID(Is))...};
+		for (bool b : each) if (!b) return false;
+		return true;
+	}
 	// op: 0 changeTo 1 immediateChangeTo 2 succeed 3 fail 4 changeWith 5 immediateChangeWith
 	template <class M, int I> static void one(M& m, int op, uint8_t seed) {
 		(void) seed;
@@ -393,12 +399,27 @@ struct Tmpl {
 		if constexpr (!std::is_void<Payload>::value) { if (seed) return p.template changeWith<S<I>>(dest, makePay<Payload>(seed)); }
 		return p.template change<S<I>>(dest);
 	}
+	// change<TOrigin, TDestination>() / changeWith<TOrigin, TDestination>(payload): N * N instantiations, small machines only
+	static constexpr bool PAIRS = N <= 9;
+	template <class P, int IJ> static bool planTwo(P& p, uint8_t seed) {
+		(void) seed;
+		if constexpr (!std::is_void<Payload>::value) { if (seed) return p.template changeWith<S<IJ / N>, S<IJ % N>>(makePay<Payload>(seed)); }
+		return p.template change<S<IJ / N>, S<IJ % N>>();
+	}
+	template <class P, size_t... IJs> static bool planAppendTwo(P& p, int origin, uint8_t dest, uint8_t seed, std::index_sequence<IJs...>) {
+		using Fn = bool (*)(P&, uint8_t);
+		static const Fn table[] = {&planTwo<P, int(IJs)>...};
+		return table[origin * N + dest](p, seed);
+	}
 	template <class P, size_t... Is> static bool planAppend(P& p, int origin, uint8_t dest, uint8_t seed, std::index_sequence<Is...>) {
 		using Fn = bool (*)(P&, uint8_t, uint8_t);
 		static const Fn table[] = {&planOne<P, int(Is)>...};
 		return table[origin](p, dest, seed);
 	}
-	template <class P> static bool planAppend(P& p, int origin, uint8_t dest, uint8_t seed) { return planAppend(p, origin, dest, seed, Seq{}); }
+	template <class P> static bool planAppend(P& p, int origin, uint8_t dest, uint8_t seed) {
+		if constexpr (PAIRS) { if ((origin + dest) & 1) return planAppendTwo(p, origin, dest, seed, std::make_index_sequence<size_t(N) * N>{}); }
+		return planAppend(p, origin, dest, seed, Seq{});
+	}
 #endif
 };
 
@@ -596,7 +617,7 @@ struct Runner {
 		uint64_t mask = 0;
 		for (int k = 0; k < N; ++k) if (control.isActive(static_cast<ffsm2::StateID>(k))) mask |= (1ull << k);
 		e.cAct = mask;
-		if (Tmpl<CFG>::activeMask(control, typename Tmpl<CFG>::Seq{}) != mask) e.ctmplOk = 0;
+		if (Tmpl<CFG>::activeMask(control, typename Tmpl<CFG>::Seq{}) != mask || !Tmpl<CFG>::ctlIdsOk(control, typename Tmpl<CFG>::Seq{})) e.ctmplOk = 0;
 		e.req = trOf(control.request());
 		if constexpr (fl == CTL_GUARD) e.pend = trOf(control.pendingTransition());
 		if constexpr (fl != CTL_CONST) e.cur = trOf(control.currentTransition());
